@@ -463,7 +463,18 @@ func cmdVerify(args []string) int {
 			}
 		}
 		if !coverAny["return"] {
-			coverAny["return"] = true
+			// a unit without any return path proves nothing - unless it is declared to
+			// run forever (`note noreturn`: event loops), whose obligations are the call-site
+			// and loop obligations inside the loop
+			noret := false
+			if c := db.Funcs[ur.Func]; c != nil {
+				for _, n := range c.Notes {
+					noret = noret || n == "noreturn"
+				}
+			}
+			if !noret {
+				coverAny["return"] = true
+			}
 		}
 		for l := range coverAny {
 			if !coverOK[l] {
